@@ -262,6 +262,18 @@ def run_single(case):
     got = run_sig(z ** -k, x)
     if not eqs(got, [Sym(0)] * min(k, NS) + list(x[:max(NS - k, 0)])):
       return bad("algebra:delay:pure", "z**-k must delay by k samples", k, got[:5], nt)
+    # the same delay written with an integral float exponent, alone, through a second power and as a bank part
+    for name, build in (("z**-float(k)", lambda: z ** -float(k)), ("(z**-1)**float(k)", lambda: (z ** -1) ** float(k)),
+                        ("cascade(z**-float(k))", lambda: CascadeFilter(z ** -float(k), ZFilter([1]))),
+                        ("z**-float(k) * 1", lambda: z ** -float(k) * 1)):
+      try:
+        h = build()
+        got = run_sig(h, x)
+        numer = list(h.numerator) if not isinstance(h, CascadeFilter) else None
+      except Exception as exc:
+        return bad("algebra:delay:float-exponent", "%s raised" % name, {"k": k}, type(exc).__name__ + ": " + str(exc)[:160], nt)
+      if not eqs(got, [Sym(0)] * min(k, NS) + list(x[:max(NS - k, 0)])):
+        return bad("algebra:delay:float-exponent", "%s must delay by k samples" % name, k, got[:5], nt)
   return R(None, nt, len(fs[1]) > 1)
 
 
